@@ -42,7 +42,7 @@ use crate::geometry::traits::coordinate::{
 use crate::topology::manifold::validate_ridge_links_for_cells;
 use crate::topology::traits::topological_space::{GlobalTopology, TopologyKind};
 use core::cmp::Ordering;
-use num_traits::{NumCast, ToPrimitive, Zero};
+use num_traits::{NumCast, ToPrimitive};
 use rand::SeedableRng;
 use rand::rngs::StdRng;
 use rand::seq::SliceRandom;
@@ -2096,7 +2096,9 @@ where
 
         let grid_cell_size_value =
             if let (DedupPolicy::Epsilon { .. }, Some(eps)) = (dedup_policy, epsilon) {
-                if eps > K::Scalar::zero() {
+                // The grid built here is kept as the triangulation's spatial index and later queried
+                // with the duplicate tolerance, so its cells must never be smaller than that.
+                if eps > default_tolerance {
                     eps
                 } else {
                     default_tolerance
